@@ -103,6 +103,13 @@ func (e *Env) callValue(st *State, c *ssa.CallCommon, args []Val, rt types.Type,
 		}
 	}
 	_ = pos
+	// a package-level variable holding (*regexp.Regexp).MatchString: a pure function of its argument
+	// (package-level variables are immutable after init: listed assumption)
+	if u, ok := c.Value.(*ssa.UnOp); ok {
+		if g, ok := u.X.(*ssa.Global); ok && pureFuncGlobals[g.Name()] && strings.HasPrefix(g.Pkg.Pkg.Path(), modPath) {
+			return e.pureCall(st, "glob_"+g.Pkg.Pkg.Name()+"_"+g.Name(), args, rt)
+		}
+	}
 	// calls through a function value are recorded under the source name of that value; parameters are a0, a1, ...
 	dn := sourceName(fr.fn, c.Value)
 	var pn []string
@@ -353,7 +360,16 @@ func (e *Env) callSiteChecks(st *State, callee string, names []string, args []Va
 		return
 	}
 	for _, cs := range ct.CallSites {
-		if cs.Callee != callee {
+		if strings.ContainsAny(cs.Callee, ".(") {
+			// qualified callee, e.g. "(MerkleProof).VerifyMembership" or "ics23.VerifyMembership": suffix of the full name
+			full := ""
+			if c != nil {
+				full = callName(c)
+			}
+			if !strings.HasSuffix(full, cs.Callee) {
+				continue
+			}
+		} else if cs.Callee != callee {
 			continue
 		}
 		vars := map[string]Val{}
@@ -501,6 +517,9 @@ func (e *Env) havocReach(st *State, a Val, why string, d int) {
 	}
 }
 
+// package-level function variables initialised with a compiled regular expression's MatchString
+var pureFuncGlobals = map[string]bool{"IsRevisionFormat": true, "IsValidID": true, "IsValidRule": true}
+
 var pureMethodRe = regexp.MustCompile(`\)\.(ValidateBasic|GetSigners|GetSignBytes|String|Route|Type|Bytes|Hex|IsContract|Empty|Equal|Equals)$`)
 
 func pureExternal(name string) bool {
@@ -511,7 +530,7 @@ func pureExternal(name string) bool {
 		"github.com/ethereum/go-ethereum/common.", "(github.com/ethereum/go-ethereum/common.", "github.com/ethereum/go-ethereum/crypto.", "math/bits.", "regexp.", "(*regexp.",
 		"github.com/ethereum/go-ethereum/common/hexutil.", "(github.com/cosmos/cosmos-sdk/types.AccAddress).", "github.com/cosmos/cosmos-sdk/types.AccAddressFromBech32",
 		"(time.Time).", "(time.Duration).", "sort.SearchInts", "github.com/cosmos/cosmos-sdk/types/errors.", "(*github.com/cosmos/cosmos-sdk/types/errors.Error).",
-		"github.com/tendermint/tendermint/crypto/tmhash.", "github.com/gogo/protobuf/proto.CompactTextString", "github.com/cosmos/ibc-go/v3/modules/apps/transfer/types.", "(github.com/cosmos/ibc-go/v3/modules/apps/transfer/types.DenomTrace).", "github.com/cosmos/cosmos-sdk/types.NewIntFromString", "(*github.com/cosmos/cosmos-sdk/codec/types.Any).GetCachedValue", "github.com/cosmos/cosmos-sdk/types.NewDecWithPrec", "github.com/cosmos/cosmos-sdk/types.NewCoin", "github.com/gogo/protobuf/proto.Equal", "github.com/gogo/protobuf/proto.Size"} {
+		"github.com/tendermint/tendermint/crypto/tmhash.", "github.com/gogo/protobuf/proto.CompactTextString", "github.com/cosmos/ibc-go/v3/modules/apps/transfer/types.", "(github.com/cosmos/ibc-go/v3/modules/apps/transfer/types.DenomTrace).", "github.com/cosmos/cosmos-sdk/types.NewIntFromString", "(*github.com/cosmos/cosmos-sdk/codec/types.Any).GetCachedValue", "github.com/cosmos/cosmos-sdk/types.NewDecWithPrec", "github.com/tendermint/tendermint/types.ValidatorSetFromProto", "github.com/tendermint/tendermint/types.SignedHeaderFromProto", "(*github.com/tendermint/tendermint/types.ValidatorSet).Hash", "github.com/cosmos/cosmos-sdk/types.NewCoin", "github.com/gogo/protobuf/proto.Equal", "github.com/gogo/protobuf/proto.Size"} {
 		if strings.HasPrefix(name, p) {
 			return true
 		}
